@@ -5,7 +5,7 @@ import os
 from hypothesis import strategies as st
 
 from .. import cmpx, gen, model
-from ..runner import Enum, Hyp
+from ..runner import Custom, Enum, Hyp
 
 ID = "C18"
 TITLE = "Query results are independent of query history and repeatable"
@@ -70,7 +70,7 @@ def resolve(spec, ds, menu, r):
     return F, i, axis, k
 
 
-def run_history(case, ctx, tag="hist"):
+def run_history(case, ctx, tag="hist", only_last=False):
     import numpy as np
     import verif.axis
     from .. import mat
@@ -232,9 +232,48 @@ def check_repeat(case, ctx):
         ctx.fail(key, dict(case), "the same command printed different output on its second run:\n%s\n---\n%s" % (r1.stdout[-300:], r2.stdout[-300:]))
 
 
+# ---- the same invariants driven by Hypothesis' rule-based state machine ------------------------
+def run_stateful(ctx, tier, seedval, n, t_end):
+    """RuleBasedStateMachine: initialize draws the dataset, one rule issues a request; the invariants
+    (fresh / earlier / inputs) run inside the rule through run_history on the history so far."""
+    import time
+    from hypothesis import seed as hseed
+    from hypothesis.stateful import RuleBasedStateMachine, initialize, rule, run_state_machine_as_test
+    from .. import runner
+
+    steps = 12 if tier == "quick" else 30
+
+    class Histories(RuleBasedStateMachine):
+        def __init__(self):
+            super(Histories, self).__init__()
+            self.spec = None
+            self.history = []
+
+        @initialize(spec=gen.dataset(max_inputs=3, clim="maybe", flavor="mix", core_max=3, extra_max=1, allow_drop=False,
+                                     max_members=2, allow_all_missing=False))
+        def build(self, spec):
+            self.spec = spec
+            self.history = []
+            ctx.evals += 1
+
+        @rule(r=st.tuples(st.integers(0, 15), st.integers(0, 3), st.sampled_from(AXES + ["all", "all"]), st.integers(0, 5)))
+        def request(self, r):
+            if time.time() > t_end:
+                ctx.inconclusive += 1
+                return
+            self.history.append(list(r))
+            # only the newest step needs judging: earlier prefixes were judged when they were the newest
+            runner.guarded(lambda case, c: run_history(case, c, only_last=True), {"spec": self.spec, "opts": {}, "history": list(self.history)}, ctx, ID)
+
+    Histories.TestCase.settings = runner.hyp_settings(n, [__import__("hypothesis").Phase.generate])
+    run_state_machine_as_test(hseed(seedval)(Histories), settings=__import__("hypothesis").settings(
+        runner.hyp_settings(n, [__import__("hypothesis").Phase.generate]), stateful_step_count=steps))
+
+
 def campaigns(tier):
     return [
         Enum("exhaustive-len3", exhaustive_items, check_exhaustive, "all request sequences of length <=3 over a 12-request menu on 3 fixed datasets"),
+        Custom("stateful-machine", run_stateful, run_history, quick=320, thorough=6000, budget_quick=40, budget_thorough=900),
         Hyp("history", history_strategy, run_history, quick=1600, thorough=30000, budget_quick=50, budget_thorough=1200),
         Hyp("history-pit-x0x1", pitx_strategy, run_history, quick=320, thorough=6000, budget_quick=40, budget_thorough=600),
         Hyp("repeat", repeat_strategy, check_repeat, quick=320, thorough=8000, budget_quick=50, budget_thorough=900),
